@@ -408,6 +408,42 @@ impl E {
             _ => false,
         }
     }
+    /// Columns (alias, name) referenced directly by the expression.
+    pub fn cols(&self, out: &mut Vec<(String, String)>) {
+        match self {
+            E::Col(a, c, _) => out.push((a.clone(), c.clone())),
+            E::Bin(_, a, b) => {
+                a.cols(out);
+                b.cols(out);
+            }
+            E::Not(a) | E::Neg(a) | E::IsNull(a, _) => a.cols(out),
+            E::Case(c, t, e) => {
+                c.cols(out);
+                t.cols(out);
+                if let Some(e) = e {
+                    e.cols(out);
+                }
+            }
+            E::InList(a, l, _) => {
+                a.cols(out);
+                l.iter().for_each(|x| x.cols(out));
+            }
+            E::Between(a, l, h) => {
+                a.cols(out);
+                l.cols(out);
+                h.cols(out);
+            }
+            E::InSub(a, _, _) => a.cols(out),
+            E::Agg(_, Some(a), _) => a.cols(out),
+            _ => {}
+        }
+    }
+    pub fn shares_col_with(&self, other: &E) -> bool {
+        let (mut a, mut b) = (vec![], vec![]);
+        self.cols(&mut a);
+        other.cols(&mut b);
+        a.iter().any(|x| b.contains(x))
+    }
     pub fn has_subquery(&self) -> bool {
         match self {
             E::InSub(..) | E::Exists(..) | E::Scalar(..) => true,
@@ -647,7 +683,7 @@ impl<'a, 'b> Gen<'a, 'b> {
                 let mut a = self.expr(scope, outer, Ty::Int, depth + 1, allow_sub);
                 let mut b = self.expr(scope, outer, Ty::Int, depth + 1, allow_sub);
                 if !self.cfg.null_unsound_patterns {
-                    if op == "-" && a == b {
+                    if op == "-" && (a == b || a.shares_col_with(&b)) {
                         b = E::Lit(Val::Int(1), Ty::Int);
                     }
                     if op == "*" {
@@ -728,7 +764,9 @@ impl<'a, 'b> Gen<'a, 'b> {
         let op = ops[self.t.pick(ops.len())];
         let a = self.expr(scope, outer, ty, depth + 1, allow_sub);
         let mut b = self.expr(scope, outer, ty, depth + 1, allow_sub);
-        if !self.cfg.null_unsound_patterns && a == b {
+        // (also when both sides mention the same column: `c <> c + 2` reaches `c - c` through
+        // the *-add rules)
+        if !self.cfg.null_unsound_patterns && (a == b || (ty == Ty::Int && a.shares_col_with(&b))) {
             b = match ty {
                 Ty::Int => E::Lit(Val::Int(1), ty),
                 Ty::Bool => E::Lit(Val::Bool(true), ty),
